@@ -38,3 +38,7 @@ def run(R):
         R.coverage["distribution"]["app_reader_cases"] = app["kinds"]
         R.add_cases(app["cases"], len(app["nontrivial"]), app["samples"])
     return R.finish()
+
+
+def replay(R, path):
+    return _face().replay_generic(R, path, "C11")
